@@ -56,6 +56,7 @@ def run(prog, run):
     r6(prog, run)
     r7(prog, run)
     r8(prog, run)
+    r9(prog, run)
 
 
 def r1(prog, run):
@@ -505,6 +506,24 @@ def r7(prog, run):
                           % cn.split('::', 1)[-1])
 
 
+def r9(prog, run):
+    rid = run.rule('C09.R9', 'the unacknowledged stanzas are kept in a container that iterates in ascending key order (QMap / std::map): the acknowledgement loop stops at the '
+                             'first key above h, and resending / renumbering follow iteration order - in a hash container covered stanzas stay unconfirmed and the '
+                             'retransmission order is scrambled', floor=1)
+    rec = prog.record(SAM)
+    fl = [x for x in rec['fields'] if (x.get('qname') or SAM + '::' + x['name']) == UNACK]
+    if not fl:
+        raise AnalysisBroken('C09.R9: %s not found' % UNACK)
+    run.instance(rid)
+    t = (fl[0].get('t') or '').replace('const ', '')
+    if t.startswith(('QMap<', 'std::map<', 'QMultiMap<', 'std::multimap<')):
+        run.ok(rid, 'src/base/QXmppStreamManagement_p.h', '%s is %s' % (fl[0]['name'], t.split('<')[0]))
+    else:
+        run.violation(rid, 'StreamAckManager::%s#unordered' % fl[0]['name'], 'src/base/QXmppStreamManagement_p.h:%s' % fl[0].get('line', ''),
+                      '%s is a %s: its users iterate it as "oldest first, stop at the first key above h" (setAcknowledgedSequenceNumber) and resend / renumber in iteration '
+                      'order (enableStreamManagement); without key order stanzas the server confirmed stay pending and are retransmitted out of order' % (fl[0]['name'], t[:40]))
+
+
 def r8(prog, run):
     rid = run.rule('C09.R8', 'every counter of the acknowledgement manager restarts with a fresh stream-management session: each integer member that is modified '
                              'outside enableStreamManagement is zeroed in its reset branch (a counter that survives makes the new session ignore or mis-number acks)', floor=2)
@@ -517,6 +536,18 @@ def r8(prog, run):
         l = en.nodes[en.skip(n['l'])]
         if l['k'] == 'mem' and en.const_value(n['r']) == ('int', 0) and en.pos(i) and en.pos(i)[0] in reach:
             zeroed.add(l['f'])
+    # ... and on every path of the reset branch, whatever else the branch tests (an empty map, a missing feature): what is zeroed on all exits
+    def zt(f, nid, st):
+        n = f.nodes[nid]
+        if n['k'] == 'assign':
+            l = f.nodes[f.skip(n['l'])]
+            if l['k'] == 'mem' and f.const_value(n['r']) == ('int', 0) and l['f'] not in st:
+                return tuple(sorted(st + (l['f'],)))
+        return None
+    exits, _ = cfgx.explore(en, (), zt, lambda f, c, st: ev.ev(c, st), max_states=20000)
+    always = set.intersection(*[set(st) for st in exits]) if exits else set()
+    sometimes = zeroed - always
+    zeroed = always
     n_fields = 0
     for fl in rec['fields']:
         tc = fl.get('tc') or ''
@@ -533,7 +564,8 @@ def r8(prog, run):
         else:
             f, i = writers[0]
             run.violation(rid, 'StreamAckManager::%s#survives-new-session' % fl['name'], f.loc(i),
-                          '%s is updated in %s but not reset when a fresh stream-management session restarts the numbering: acks of the new session are judged '
-                          'against a value of the old one' % (fl['name'], top_function(prog, f).qname.split('::')[-1]))
+                          '%s is updated in %s but not reset %s when a fresh stream-management session restarts the numbering: acks of the new session are judged '
+                          'against a value of the old one' % (fl['name'], top_function(prog, f).qname.split('::')[-1],
+                                                              'on every path (only under a further condition, e.g. while stanzas are pending)' if q in sometimes else 'at all'))
     if n_fields < 2:
         raise AnalysisBroken('C09.R8: counters of StreamAckManager not found')
